@@ -85,7 +85,7 @@ func checkC16(c c16Case) (Outcome, error) {
 	return out, nil
 }
 
-var extremeFamilies = []string{"constant", "constant", "alternating", "transition", "transition", "biased", "balanced", "sparse", "sparse", "longrun", "periodic", "markov", "uniform", "walk", "runs", "tone", "explicit", "debruijn", "debruijn"}
+var extremeFamilies = []string{"constant", "constant", "alternating", "transition", "transition", "biased", "balanced", "sparse", "sparse", "longrun", "periodic", "markov", "uniform", "walk", "runs", "tone", "explicit", "debruijn", "debruijn", "nearflat", "nearflat", "prefixconst", "bytewords"}
 
 func genC16(t *rapid.T) c16Case {
 	c := c16Case{Test: rapid.IntRange(0, 14).Draw(t, "test"), Runner: rapid.Bool().Draw(t, "runner")}
@@ -135,6 +135,7 @@ func TestC16Sweep(t *testing.T) {
 					{Family: "transition", N: n, A: 1, Pos: []int{n / 3}}, {Family: "biased", N: n, Seed: 5, F: 0.999}, {Family: "balanced", N: n, Seed: 6},
 					{Family: "sparse", N: n, A: 0, Pos: []int{n - 1}}, {Family: "uniform", N: n, Seed: 7},
 					{Family: "debruijn", N: (n + 255) / 256 * 256, A: 2}, {Family: "debruijn", N: (n + 255) / 256 * 256, A: 5, B: 3}, {Family: "debruijn", N: (n + 255) / 256 * 256, A: 8, Pos: []int{1}},
+					{Family: "prefixconst", N: n, A: 0, Seed: 9, Pos: []int{n * 2 / 5}}, {Family: "prefixconst", N: n, A: 1, Seed: 10, Pos: []int{n * 4 / 5}}, {Family: "nearflat", N: n, Seed: 11, A: 40},
 					{Family: "debruijn", N: (n + 4095) / 4096 * 4096, A: 10}, {Family: "debruijn", N: (n + 4095) / 4096 * 4096, A: 12, B: 77}, {Family: "debruijn", N: 22 * 1024 * ((n + 22527) / 22528), A: 10}} {
 					if n >= 10000000 && (q.Family == "balanced" || q.Family == "biased" || q.Family == "sparse") {
 						continue
